@@ -75,6 +75,12 @@ def lookalike_case(rep, drv, rnd, i):
         if t[0] == 'F' and len(t[2]) >= 2:
             extra.append(('lk', [('F', t[1], [('A', ','.join(_plain(a) for a in t[2]))]), ('A', 'one-argument')], 'tru'))
 
+    # atoms outside the Basic Multilingual Plane, and predicates whose (quoted) names begin with an underscore
+    wide = rnd.choice(['\U0001F600', 'x\U0001D4B3y', '\U0001F600\U0001F600'])
+    extra.append(('lk', [('A', wide), ('A', 'wide')], 'tru'))
+    extra.append(('_primary', [('V', 'X')], ('call', 'lk', [('V', 'X'), ('A', 'wide')]), True))
+    extra.append(('viaprimary', [('V', 'X')], ('call', '_primary', [('V', 'X')]), True))
+
     def swap(t):
         if t[0] == 'A' and rnd.random() < 0.25:
             return ('A', _plain(rnd.choice(cands)))
@@ -90,6 +96,9 @@ def lookalike_case(rep, drv, rnd, i):
     ops = [('load', 'overwrite', prog2)]
     ops += [('query', n_, ('all',), a) for n_, a in qs]
     ops.append(('query', 'lk', ('all',), [[Sym('v'), 0], [Sym('v'), 1]]))
+    ops.append(('query', 'lk', ('all',), [[Sym('a'), wide], [Sym('v'), 1]]))
+    ops.append(('query', 'viaprimary', ('all',), [[Sym('v'), 0]]))
+    ops.append(('query', '_primary', ('all',), [[Sym('a'), wide]]))
     rep.count('look-alike-atoms')
     if scen.three_way(rep, drv, ops, 'case %d look-alike atoms' % i) == 'ok':
         rep.nontriv(scen.norm(scen.ops_json(ops[:1])))
